@@ -132,6 +132,8 @@ def pred_c07(tr, story):
                 continue
             if label == "disc" and pj.get("ff") == "P":
                 continue
+            if label == "disc" and pj.get("ff") == "?":
+                unsure = True       # the connect-phase future is no longer visible under its known name
             graceful = True if graceful is None else graceful
             unsure = unsure or any(("cancel:D" == l) for l, _, _ in steps[:j + 1])
         if label.startswith("data:") and pj["cs"] != "CLOSED":
